@@ -6,6 +6,6 @@ ExportLeaves == (steps' = MaxSteps) => Export
 \* version (every shape of the version tree up to MaxVer versions and every walk of the active version over it)
 SchemaNext == /\ steps < MaxSteps
               /\ IF steps = 0 THEN Create(1, 0)
-                 ELSE (\E b \in BOOLEAN : Patch(b)) \/ (\E k \in 1..MaxVer : SetActive(k))
+                 ELSE (\E b \in BOOLEAN : Patch(b, FALSE)) \/ (\E k \in 1..MaxVer : SetActive(k))
 SchemaSpec == Init /\ [][SchemaNext]_vars
 =============================================================================
